@@ -8,6 +8,7 @@ mod core;
 mod mon;
 mod refmodel;
 mod util;
+mod zones;
 
 use crate::core::{Config, Report};
 
